@@ -37,6 +37,7 @@ import (
 	"strconv"
 	"strings"
 	"sync"
+	"sync/atomic"
 	"time"
 
 	"google.golang.org/grpc"
@@ -447,6 +448,57 @@ func modeCollectorProcess(mutate bool) func(r *vlib.Run, mode string, trial int,
 				}()
 			}
 		}
+		// Hostile clients: 12-30 raw gRPC sessions send generated SubscribeRequests
+		// (first request, then follow-ups: polls, second subscribes, empty requests)
+		// at the collector's real gRPC server while the targets stream.
+		var hostileSessions int64
+		if conn, err := grpc.NewClient(addr, grpc.WithTransportCredentials(credentials.NewTLS(&tls.Config{InsecureSkipVerify: true}))); err == nil {
+			defer conn.Close()
+			hrng := rand.New(rand.NewSource(rng.Int63()))
+			hg := newGen(hrng, time.Now().UnixNano())
+			var sessions [][]*pb.SubscribeRequest
+			for i, n := 0, 12+hrng.Intn(19); i < n; i++ {
+				var reqs []*pb.SubscribeRequest
+				for j, k := 0, 1+hrng.Intn(4); j < k; j++ {
+					if m, _, ok := roundTrip(hg.subscribeRequest(j == 0), newSubscribeRequest); ok {
+						reqs = append(reqs, m)
+					}
+				}
+				if len(reqs) > 0 {
+					sessions = append(sessions, reqs)
+				}
+			}
+			var hwg sync.WaitGroup
+			defer hwg.Wait()
+			for _, reqs := range sessions {
+				reqs := reqs
+				hwg.Add(1)
+				go func() {
+					defer hwg.Done()
+					hctx, hcancel := context.WithTimeout(sctx, 300*time.Millisecond)
+					defer hcancel()
+					st, err := pb.NewGNMIClient(conn).Subscribe(hctx)
+					if err != nil {
+						return
+					}
+					atomic.AddInt64(&hostileSessions, 1)
+					go func() {
+						for _, q := range reqs {
+							if st.Send(q) != nil {
+								return
+							}
+							time.Sleep(2 * time.Millisecond)
+						}
+						st.CloseSend()
+					}()
+					for k := 0; k < 200; k++ {
+						if _, err := st.Recv(); err != nil {
+							return
+						}
+					}
+				}()
+			}
+		}
 		witness := func() map[string]interface{} {
 			w := map[string]interface{}{"mode": mode, "targets": nT, "mutated": mutate}
 			sent := map[string]int{}
@@ -534,6 +586,7 @@ func modeCollectorProcess(mutate bool) func(r *vlib.Run, mode string, trial int,
 		got := received
 		rmu.Unlock()
 		r.Count("collector_process_responses_streamed_at_it", int64(total))
+		r.Count("collector_process_hostile_client_sessions", atomic.LoadInt64(&hostileSessions))
 		r.Count("collector_process_responses_relayed_to_subscribers", got)
 		r.Count("collector_process_target_sessions", int64(func() int {
 			n := 0
